@@ -1,0 +1,90 @@
+//go:build verif
+
+package compiler
+
+// Verification hooks for property C16 (minification preserves behaviour).
+// Add-only, compiled only with `-tags verif`; thin wrappers around unexported code.
+
+import (
+	"fmt"
+	"go/types"
+	"sort"
+
+	"github.com/gopherjs/gopherjs/compiler/internal/analysis"
+	"github.com/gopherjs/gopherjs/compiler/internal/typeparams"
+	"github.com/gopherjs/gopherjs/compiler/sources"
+)
+
+// VerifC16RemoveWhitespace is removeWhitespace; a run-time panic (index / slice bounds)
+// is reported instead of propagated.
+func VerifC16RemoveWhitespace(b []byte, minify bool) (out []byte, panicMsg string) {
+	defer func() {
+		if r := recover(); r != nil {
+			out, panicMsg = nil, fmt.Sprint(r)
+		}
+	}()
+	return removeWhitespace(b, minify), ""
+}
+
+// VerifC16NeedsSpace is needsSpace.
+func VerifC16NeedsSpace(c byte) bool { return needsSpace(c) }
+
+// VerifC16ReservedKeywords returns the keys of reservedKeywords, sorted.
+func VerifC16ReservedKeywords() []string {
+	res := make([]string, 0, len(reservedKeywords))
+	for k := range reservedKeywords {
+		res = append(res, k)
+	}
+	sort.Strings(res)
+	return res
+}
+
+// VerifC16EncodeIdent is encodeIdent.
+func VerifC16EncodeIdent(name string) string { return encodeIdent(name) }
+
+// VerifC16Scopes is a tree of real funcContexts: scope 0 is made by newRootCtx (which
+// seeds the reserved words), every other scope by nestedFunctionContext.
+type VerifC16Scopes struct{ ctxs []*funcContext }
+
+// VerifC16NewScopes creates the root scope with the real newRootCtx.
+func VerifC16NewScopes(minify bool) *VerifC16Scopes {
+	root := newRootCtx(nil, &sources.Sources{TypeInfo: &analysis.Info{}}, minify)
+	return &VerifC16Scopes{ctxs: []*funcContext{root}}
+}
+
+// Len is the number of scopes.
+func (s *VerifC16Scopes) Len() int { return len(s.ctxs) }
+
+// Child creates a nested function context under scope `parent` with the real
+// nestedFunctionContext (which copies allVars and allocates the function's own
+// package-level reference name). Returns the new scope id and that name.
+func (s *VerifC16Scopes) Child(parent int, funcName string) (id int, funcRef string, panicMsg string) {
+	defer func() {
+		if r := recover(); r != nil {
+			id, funcRef, panicMsg = -1, "", fmt.Sprint(r)
+		}
+	}()
+	sig := types.NewSignatureType(nil, nil, nil, nil, nil, false)
+	o := types.NewFunc(0, nil, funcName, sig)
+	c := s.ctxs[parent].nestedFunctionContext(&analysis.FuncInfo{}, typeparams.Instance{Object: o})
+	s.ctxs = append(s.ctxs, c)
+	return len(s.ctxs) - 1, c.funcRef.Name, ""
+}
+
+// NewVariable is funcContext.newVariable on scope `scope`.
+func (s *VerifC16Scopes) NewVariable(scope int, name string, pkgLevel bool) (res string, panicMsg string) {
+	defer func() {
+		if r := recover(); r != nil {
+			res, panicMsg = "", fmt.Sprint(r)
+		}
+	}()
+	return s.ctxs[scope].newVariable(name, pkgLevel), ""
+}
+
+// Count is allVars[name] of scope `scope`.
+func (s *VerifC16Scopes) Count(scope int, name string) int { return s.ctxs[scope].allVars[name] }
+
+// LocalVars is localVars of scope `scope`.
+func (s *VerifC16Scopes) LocalVars(scope int) []string {
+	return append([]string(nil), s.ctxs[scope].localVars...)
+}
